@@ -557,6 +557,40 @@ Proof.
       * apply SS_app_mid in HS2. rewrite Forall_forall in HS2. apply (HS2 (kw, LW id x) Hin).
 Qed.
 
+(* two observations of the same id with no write of that id placed between them see the same record *)
+Lemma obs_same_without_write : forall (L : list lentry) r id x1 x2 k1 k2,
+  StronglySorted (fun a b => fst a <= fst b) L -> reg_accepts r (map snd L) ->
+  In (k1, LObs id x1) L -> In (k2, LObs id x2) L -> k1 < k2 ->
+  (forall kw xw, In (kw, LW id xw) L -> ~ (k1 <= kw <= k2)) -> x1 = x2.
+Proof.
+  intros L r id x1 x2 k1 k2 HS HA H1 H2 Hlt Hno.
+  destruct (sorted_before L (k1, LObs id x1) (k2, LObs id x2) HS H1 H2 Hlt) as (l1 & l2 & l3 & E).
+  subst L. unfold lentry in *. rewrite map_app in HA. apply reg_accepts_app in HA as [_ HA].
+  rewrite map_cons in HA. cbn [snd reg_accepts] in HA. destruct HA as [E1 HA].
+  rewrite map_app in HA. apply reg_accepts_app in HA as [_ HA].
+  rewrite map_cons in HA. cbn [snd reg_accepts] in HA. destruct HA as [E2 _].
+  destruct (reg_after_src id (map snd l2) (reg_after r (map snd l1))) as [E|Hin].
+  - congruence.
+  - rewrite E2 in Hin. clear E1 E2. apply in_map_iff in Hin as ([kw o] & Eo & Hin). cbn [snd] in Eo. subst o.
+    exfalso. apply (Hno kw x2).
+    + apply in_or_app. right. right. apply in_or_app. left. exact Hin.
+    + apply SS_app_r in HS. inversion HS as [|? ? HS2 HF]; subst.
+      rewrite Forall_forall in HF. split.
+      * apply (HF (kw, LW id x2)). apply in_or_app. left. exact Hin.
+      * apply SS_app_mid in HS2. rewrite Forall_forall in HS2. apply (HS2 (kw, LW id x2) Hin).
+Qed.
+
+Lemma pair_split : forall r id v m, In (id, (v, m)) (pair_components r) ->
+  In (id, Some v) (vec_components r) /\ In (id, m) (meta_components r).
+Proof.
+  intros r id v m H. destruct r as [i o|i [[v0 m0]|]|rs|b|b]; cbn in *; try contradiction.
+  - destruct H as [H|[]]. inversion H; subst. split; left; reflexivity.
+  - apply in_flat_map in H as ([i [[v0 m0]|]] & Hin & H); cbn in H; [|contradiction].
+    destruct H as [H|[]]. inversion H; subst. split.
+    + apply in_map_iff. exists (id, Some (v, m)). split; [reflexivity | exact Hin].
+    + apply in_flat_map. exists (id, Some (v, m)). split; [exact Hin | left; reflexivity].
+Qed.
+
 (* ================================================================================================ *)
 (* The interleaving semantics: invariant                                                            *)
 (* ================================================================================================ *)
@@ -1019,5 +1053,40 @@ Section Run.
     destruct HWent as (kW & xW & HinW & HkW & HmW).
     destruct (last_write_before _ _ _ _ _ _ _ HS HA Hin HinW) as (kw & Hinw & Hkw); [lia|].
     exists kW, xW, kw, x. repeat split; auto; lia.
+  Qed.
+
+  (* the pairing clause holds for every read during which no write of that id took effect between its
+     two fetches (the refuted class is exactly "a write lands between them") *)
+  Theorem pairing_without_interleaved_write : forall sh0 threads sched g,
+    crun (ginit sh0 threads) sched = Some g ->
+    forall t c cl r inv res id v m,
+      In (HRes t c cl r inv res) (g_hist g) -> In (id, (v, m)) (pair_components r) ->
+      exists kv km xv xm,
+        In (kv, LObs id xv) (chron (g_log g)) /\ In (km, LObs id xm) (chron (g_log g)) /\
+        inv <= kv <= res /\ inv <= km <= res /\
+        option_map c_vec xv = Some v /\ option_map c_meta xm = Some m /\
+        ((forall kw xw, In (kw, LW id xw) (chron (g_log g)) -> ~ (Nat.min kv km <= kw <= Nat.max kv km)) ->
+         exists rc, xv = Some rc /\ xm = Some rc /\ c_vec rc = v /\ c_meta rc = m).
+  Proof.
+    intros sh0 threads sched g Hrun t c cl r inv res id v m Hres Hp.
+    destruct (pair_split _ _ _ _ Hp) as [Hv Hm].
+    destruct (register_linearizable _ _ _ _ Hrun) as (HS & HA & _ & Hcalls & _).
+    destruct (Hcalls _ _ _ _ _ _ Hres) as (_ & Jv & Jm & _).
+    destruct (Jv _ _ Hv) as (kv & xv & Hinv & Hkv & Exv).
+    destruct (Jm _ _ Hm) as (km & xm & Hinm & Hkm & Exm).
+    exists kv, km, xv, xm. repeat (split; [assumption|]).
+    intros Hno.
+    assert (E : xv = xm).
+    { destruct (Nat.lt_trichotomy kv km) as [Hlt|[Heq|Hgt]].
+      - eapply obs_same_without_write; eauto. intros kw xw Hw Hb. apply (Hno kw xw Hw). lia.
+      - subst km.
+        assert (Hl1 : In (kv, LObs id xv) (g_log g)) by (apply in_rev; exact Hinv).
+        assert (Hl2 : In (kv, LObs id xm) (g_log g)) by (apply in_rev; exact Hinm).
+        destruct (entry_at_prefix _ _ _ _ _ Hrun Hl1) as (g1 & R1 & A1).
+        destruct (entry_at_prefix _ _ _ _ _ Hrun Hl2) as (g2 & R2 & A2).
+        cbn [fst snd op_agrees] in *. rewrite R1 in R2. inversion R2; subst g2. congruence.
+      - symmetry. eapply obs_same_without_write; eauto. intros kw xw Hw Hb. apply (Hno kw xw Hw). lia. }
+    subst xm. destruct xv as [rc|]; cbn in Exv, Exm; [|discriminate].
+    exists rc. inversion Exv. inversion Exm. auto.
   Qed.
 End Run.
